@@ -215,3 +215,26 @@ def dtype_variants(ck, train, what_prefix=""):
                 ck.disagree("the output on a 0/1 batch depends on the dtype the batch is stored in", {"layer": name, "dtype": str(dt), "train": train},
                             expected=ref.reshape(-1)[:6].tolist(), observed=y.double().reshape(-1)[:6].tolist(),
                             signature={"what": what_prefix + "dtype", "layer": name})
+
+
+def empty_batch(ck, train, what_prefix=""):
+    """A batch of zero rows is a batch: every layer kind returns zero rows of its output shape."""
+    from torchlogix.layers import GroupSum, LogicConv2d, LogicConv3d, LogicDense, OrPooling
+    layers = [("dense-raw", LogicDense(5, 7, device="cpu"), (5,), (7,)),
+              ("dense-walsh", LogicDense(5, 7, device="cpu", parametrization="walsh"), (5,), (7,)),
+              ("conv2d", LogicConv2d(in_dim=(3, 4), device="cpu", channels=2, num_kernels=3, tree_depth=1, receptive_field_size=2), (2, 3, 4), (3, 2, 3)),
+              ("conv3d", LogicConv3d(in_dim=(2, 2, 3), device="cpu", channels=1, num_kernels=2, tree_depth=1, receptive_field_size=2), (1, 2, 2, 3), (2, 1, 1, 2)),
+              ("pool", OrPooling(2, 1, 0), (2, 3, 3), (2, 2, 2)),
+              ("groupsum", GroupSum(2, device="cpu"), (6,), (2,))]
+    for name, l, shp, oshp in layers:
+        l.train(train)
+        ck.case({"layer": name, "empty_batch": True, "train": train}, kind="empty-batch")
+        try:
+            with torch.no_grad():
+                y = l(torch.zeros(0, *shp))
+            if tuple(y.shape) != (0, *oshp):
+                ck.disagree("a batch of zero rows does not give zero rows of the layer's output shape", {"layer": name, "train": train},
+                            expected=[0, *oshp], observed=list(y.shape), signature={"what": what_prefix + "empty-batch", "layer": name})
+        except Exception as e:
+            ck.disagree("a layer fails on a batch of zero rows", {"layer": name, "train": train}, observed=repr(e)[:200],
+                        signature={"what": what_prefix + "empty-batch", "layer": name})
